@@ -102,6 +102,46 @@ theorem result_fromDict_toDict (o : Val) (h : Good .result o) :
   obtain ⟨o', h3, h4⟩ := h2 d (sim_refl d)
   exact ⟨d, o', h1, h3, h4⟩
 
+/-! ### falsy-but-valid field values: the field accesses of `*_from_dict` as coded (round 6) -/
+
+/-- **How every field of every `*_from_dict` is read** (generated leaves
+    `fromDict{Result,Rdms,Dataset,Model} field present truthy`, re-derived from the source on
+    every run): whenever the key is in the stored dictionary the stored value itself is used —
+    for a truthy *and for a falsy* value (`0`, `0.0`, `''`, `[]`, `False`, 0-d `array(0)`): code 1 in
+    both columns —, an absent key gives `None` (0, optional: `dof`, `variances`, the derived
+    variances) or `KeyError` (3, required).  An `x = d.get(k) or default` / `if d[k]:` on any of
+    these fields makes the falsy column 2 / 0 and this statement false.  The one field read by truth
+    value on purpose is a model's `rdm` (`None` = a model without RDMs). -/
+theorem from_dict_fields_table :
+    (∀ i, i < 12 → ∀ t, t < 2 → Rsa.Gen.C16.fromDictResult i 1 t = 1) ∧
+    (∀ i, i < 5 → ∀ t, t < 2 → Rsa.Gen.C16.fromDictRdms i 1 t = 1) ∧
+    (∀ i, i < 6 → ∀ t, t < 2 → Rsa.Gen.C16.fromDictDataset i 1 t = 1) ∧
+    (∀ i, 1 ≤ i → i < 3 → ∀ t, t < 2 → Rsa.Gen.C16.fromDictModel i 1 t = 1) ∧
+    Rsa.Gen.C16.fromDictModel 0 1 1 = 1 ∧ Rsa.Gen.C16.fromDictModel 0 1 0 = 0 ∧
+    -- absent keys: `dof`, `variances`, `model_var`, `diff_var`, `noise_ceil_var` are optional
+    (∀ i, i < 12 → Rsa.Gen.C16.fromDictResult i 0 0 = if i ∈ [1, 2, 9, 10, 11] then 0 else 3) ∧
+    (∀ i, i < 5 → Rsa.Gen.C16.fromDictRdms i 0 0 = 3) ∧
+    (∀ i, i < 6 → Rsa.Gen.C16.fromDictDataset i 0 0 = 3) ∧
+    (∀ i, i < 3 → Rsa.Gen.C16.fromDictModel i 0 0 = 3) := by
+  decide
+
+/-- `*_from_dict` of every kind with its field accesses as coded (`fromDictC`: each field goes
+    through the generated rule with the Python truth value `pyTruthy` of what was stored) is the
+    `fromDict` all round-trip theorems speak about — for **every** dictionary, whatever the truth
+    values of its fields -/
+theorem fromDictC_eq_fromDict (k : Kind) (d : Val) : fromDictC k d = fromDict k d :=
+  fromDictC_eq k d
+
+/-- object → dict → object **as coded** is the identity up to element-wise equality for every
+    well-formed object of every kind — dof 0, noise ceiling 0.0, all-zero evaluations, n_rdm /
+    n_pattern `None` or 0, empty-string names / methods / measures, descriptor values 0 / 0.0 /
+    False / '' / [] included: `Good` places no condition on the truth value of any field -/
+theorem falsy_fields_roundtrip (k : Kind) (o : Val) (h : Good k o) :
+    ∃ d o', toDict k o = .ok d ∧ fromDictC k d = .ok o' ∧ canon o' = canon o := by
+  obtain ⟨d, h1, _, h2⟩ := kind_roundtrip k o h
+  obtain ⟨o', h3, h4⟩ := h2 d (sim_refl d)
+  exact ⟨d, o', h1, by rw [fromDictC_eq]; exact h3, h4⟩
+
 /-! ### index-keyed groups: read by constructed key, never in storage order -/
 
 /-- `result_dict['models']['model_%d' % i]` and `dict_to_list`'s `d[str(i)]`: what is read from
@@ -594,6 +634,25 @@ example : Good .result (mkResult (.tens .nd [1, 1, 2] [.num .float (.fin 1), .nu
   ⟨_, _, _, _, _, _, _, _, _, _, _, _, rfl,
     ModelsWF.cons _ _ _ (IsModel.other "ModelFixed" "m" _ _ _ _ _ (Or.inl rfl) (by decide +kernel))
       ModelsWF.nil, ⟨by decide +kernel, trivial⟩, by decide +kernel⟩
+/-- a Result all of whose fields are falsy-but-valid: evaluations 0, dof 0, variances 0, noise
+    ceiling 0.0, method / cv_method / model name `''`, n_rdm 0, n_pattern `None` -/
+def exFalsyResult : Val :=
+  mkResult (.tens .nd [1, 1] [.num .float (.fin 0)])
+    (.tens .scalar [] [.num .int (.fin 0)]) (.tens .nd [1, 1] [.num .float (.fin 0)])
+    (.tens .nd [2] [.num .float (.fin 0), .num .float (.fin 0)]) (.str "") (.str "")
+    (.tens .scalar [] [.num .int (.fin 0)]) .none
+    (.dcons "model_0" (mkModel (.str "ModelFixed") (.str "") exRdms) .dnil)
+    (.tens .nd [1] [.num .float (.fin 0)]) (.tens .nd [0] []) (.tens .nd [0] [])
+example : Good .result exFalsyResult :=
+  ⟨_, _, _, _, _, _, _, _, _, _, _, _, rfl,
+    ModelsWF.cons _ _ _ (IsModel.other "ModelFixed" "" _ _ _ _ _ (Or.inl rfl) (by decide +kernel))
+      ModelsWF.nil, ⟨by decide +kernel, trivial⟩, by decide +kernel⟩
+-- every top-level field of it is falsy in Python's sense; the coded reader returns it all the same
+example : (["dof", "method", "cv_method", "n_rdm", "n_pattern"].all fun k =>
+    ((exFalsyResult.get? k).map pyTruthy) == some false) = true := by decide +kernel
+example : ∃ d, toDict .result exFalsyResult = .ok d ∧
+    (fromDictC .result d).toOption.bind (·.get? "dof") = some (.tens .scalar [] [.num .int (.fin 0)]) :=
+  ⟨_, rfl, by decide +kernel⟩
 -- a group listed alphabetically (`model_10` before `model_2`) is read in numeric order
 example :
     byIndex modelKey (mkDict [("model_0", .str "a"), ("model_1", .str "b"), ("model_10", .str "k"),
